@@ -116,7 +116,7 @@ user_grammar2!(e_ll_z_grammar, ELlZGrammar, ELlZGrammarTrait, e_ll_z_grammar_tra
 user_grammar2!(e_lr_z_grammar, ELrZGrammar, ELrZGrammarTrait, e_lr_z_grammar_trait);
 
 #[derive(Debug, Clone, PartialEq)]
-struct Leaf { ty: u16, start: usize, end: usize, text: String, line: u32, col: u32 }
+struct Leaf { ty: u16, start: usize, end: usize, text: String, line: u32, col: u32, eline: u32, ecol: u32 }
 #[derive(Default)]
 struct Collector { leaves: Vec<Leaf>, depth: i64, min_depth: i64, shape: Vec<String> }
 impl<'t> TreeConstruct<'t> for Collector {
@@ -126,7 +126,7 @@ impl<'t> TreeConstruct<'t> for Collector {
     fn close_non_terminal(&mut self) -> Result<(), ParolError> { self.depth -= 1; self.min_depth = self.min_depth.min(self.depth); self.shape.push(">".to_string()); Ok(()) }
     fn add_token(&mut self, t: &Token<'t>) -> Result<(), ParolError> {
         self.leaves.push(Leaf { ty: t.token_type, start: t.location.start as usize, end: t.location.end as usize, text: t.text().to_string(),
-                                line: t.location.start_line, col: t.location.start_column });
+                                line: t.location.start_line, col: t.location.start_column, eline: t.location.end_line, ecol: t.location.end_column });
         // structure: significant leaves only (where trivia is attached is not part of the derivation)
         if !((t.token_type > 0 && t.token_type < 5) || t.token_type == u16::MAX - 1 || t.is_effectively_skip_token()) { self.shape.push(format!("{}", t.location.start)); }
         Ok(())
@@ -214,8 +214,8 @@ const CLAUSES: [(&str, &str); 14] = [
     ("C03 C13 C14 C16", "tree leaves are contiguous, in order, start at 0 and end at the input length"),
     ("C13 C14 C16", "leaf texts equal the input slices of their byte ranges (texts concatenate to the input)"),
     ("C13 C14 C16", "leaf token types and ranges equal the reference tokenization (significant, skipped, comments, unmatched gaps)"),
-    ("C14", "line/column positions of scanner-produced leaves match the text"),
-    ("C14", "line/column positions of unmatched-gap leaves match the text"),
+    ("C14", "line/column positions (start and end) of scanner-produced leaves match the text"),
+    ("C14", "line/column positions (start and end) of unmatched-gap leaves match the text"),
     ("C08 C17 C20", "semantic actions see exactly the significant tokens, in order (skipped and state-skipped tokens never influence the derivation)"),
     ("C17", "every comment is passed to on_comment exactly once, in input order"),
     ("C19", "parse returns: no single parse runs longer than the watchdog limit (30 s)"),
@@ -259,8 +259,8 @@ fn check(v: usize, input: &str) -> Option<usize> {
     for l in &r.leaves { if input.get(l.start..l.end) != Some(l.text.as_str()) { return Some(3); } }
     if r.leaves.len() != want.len() { return Some(4); }
     for (l, w) in r.leaves.iter().zip(&want) { if l.ty != w.ty || l.start != w.start || l.end != w.end { return Some(4); } }
-    for l in &r.leaves { if l.ty != INVALID && (l.line, l.col) != line_col(input, l.start) { return Some(5); } }
-    let gap_bad = r.leaves.iter().any(|l| l.ty == INVALID && (l.line, l.col) != line_col(input, l.start));
+    for l in &r.leaves { if l.ty != INVALID && ((l.line, l.col) != line_col(input, l.start) || (l.eline, l.ecol) != line_col(input, l.end)) { return Some(5); } }
+    let gap_bad = r.leaves.iter().any(|l| l.ty == INVALID && ((l.line, l.col) != line_col(input, l.start) || (l.eline, l.ecol) != line_col(input, l.end)));
     if let Some(c) = check_events(&r, &want) { return Some(c); }
     if gap_bad { return Some(6); }
     None
@@ -441,7 +441,7 @@ fn check2(v: usize, input: &str) -> Option<usize> {
         for l in &r.leaves { if input.get(l.start..l.end) != Some(l.text.as_str()) { return Some(3); } }
         if r.leaves.len() != want.len() { return Some(4); }
         for (l, w) in r.leaves.iter().zip(&want) { if l.ty != w.ty || l.start != w.start || l.end != w.end { return Some(4); } }
-        for l in &r.leaves { if (l.line, l.col) != line_col(input, l.start) { return Some(5); } }
+        for l in &r.leaves { if (l.line, l.col) != line_col(input, l.start) || (l.eline, l.ecol) != line_col(input, l.end) { return Some(5); } }
     }
     if acts != want_acts { return Some(7); }
     if cms != want_cms { return Some(8); }
